@@ -244,6 +244,14 @@ MIRSYM("upgrade_steps", ["C17"],
        "source: 2 indexes, items, 2 splits with item/tree children on either side, a bucket, metadata, pending-updates set symbolic with <= 2 ids over a 16-id universe; destination pre-filled with junk; 0.5->0.6: one iteration for an arbitrary u16 index",
        _lazy("e2_upgrade"), site="upgrade::cosine_from_0_4_to_0_5 / from_0_5_to_0_6")
 
+_HIST_BOUNDS = "histories of 2-3 rounds (adds, deletes, build with n_trees / split_after) on <= 5 concrete item ids, dims 2-3, next to two neighbour indexes; every D::side answer, random draw (fair), zero/non-zero normal symbolic; quick: <= 10 distinct database states extended per round, thorough <= 40; rayon's map executed sequentially; ImmutableLeafs::new below the 200-leaf batch"
+MIRSYM("build_history", ["C01", "C06", "C15", "C07"],
+       "Writer::build executed from its MIR over whole histories: after every successful build each tree reaches exactly the stored items once, no dangling/orphan node, metadata = (items, roots), no updated mark left, the requested number of trees, every bucket within split_after, neighbour indexes untouched",
+       _HIST_BOUNDS, _lazy("e2_build"), site="Writer::build (whole pipeline)")
+MIRSYM("build_history_cancelled", ["C10"],
+       "the same histories with the cancellation callback answering true from its n-th poll on (n symbolic): build never panics, returns only Ok or BuildCancelled (after a true poll), and whenever it returns Ok the database satisfies the whole post-condition (never success over a half-built forest)",
+       _HIST_BOUNDS + "; cancel point any u32", _lazy("e2_build"), site="Writer::build (whole pipeline)", cancel=True)
+
 PROPS = {}
 
 KANI_NOTE = ("Trusted: Kani/CBMC and rustc MIR semantics; the environment models in /verif/models (heed store, "
